@@ -5,7 +5,7 @@ use crate::model::cron::{self, FieldKind, Parsed};
 use crate::obs::*;
 use crate::props::c16;
 use arbitrary::Unstructured;
-use astrolabe::{CronSchedule, DateTime, TimeUtilities};
+use astrolabe::{CronSchedule, TimeUtilities};
 use serde::{Deserialize, Serialize};
 
 #[derive(Debug, Clone, Hash, Serialize, Deserialize)]
